@@ -51,7 +51,8 @@ inductive Event where
   | overwrite (path : Str) (allow : Bool)
   /-- `open(path, "w")` and the text, every line through the line post-processors `lps` (in this order) -/
   | write (path : Str) (bytes : Str) (lps : List Nat)
-  /-- `shutil.copy(resource, path)`: content **and permission bits** of the resource -/
+  /-- `shutil.copyfile(resource, path); shutil.copymode(resource, path)`: content **and permission bits** of the resource
+  (a directory at `path` raises; paths of the model are files) -/
   | copy (path : Str) (bytes : Str) (mode : Nat)
   /-- `path.chmod(mode)` (`SetFileMode.__call__`) -/
   | chmod (path : Str) (mode : Nat)
